@@ -11,6 +11,8 @@ in both arms, apart from cache diagnostics and max_delta; under owner_scope=agen
 from __future__ import annotations
 
 import copy
+import os
+import json
 from typing import Any, Dict, List, Optional, Tuple
 
 from vsim import use_repo
@@ -197,12 +199,16 @@ def generate(seed: int, tier: str) -> Dict[str, Any]:
             (["t2", "quality"], qa, dict(qa, lexical={"enabled": True, "bm25_k1": 0.1, "bm25_b": 0.0})),
             (["t2", "quality"], qa, dict(qa, mmr={"enabled": True, "lambda": 0.1, "k": 2})),
             (["t2", "hybrid"], {"enabled": False}, {"enabled": True, "edge_threshold": 0.0, "lambda_graph": 0.9}),
+            (["perf", "t2", "reader", "partitions"], {"enabled": True, "layout": "none", "path": "./t2store"}, {"enabled": True, "layout": "none", "path": "./t2store_b"}),
             (["t2", "ranking"], {"alpha_sim": 1.0, "beta_recency": 0.0, "gamma_importance": 0.0}, {"alpha_sim": 0.0, "beta_recency": 0.0, "gamma_importance": 1.0}),
             (["t1", "edge_type_mult"], {"supports": 1.0, "associates": 0.6, "contradicts": 0.8}, {"supports": 0.1, "associates": 0.1, "contradicts": 0.1}),
         ])
         agent, text = ro.choice(sorted(world["agents"])), ro.choice(texts if texts else ["apple river"])
         raw.setdefault("t2", {})["sim_threshold"] = -1.0
         E._set_path(raw, list(knob), copy.deepcopy(va))
+        if knob[0] == "perf":
+            raw.setdefault("perf", {})["enabled"] = True
+            raw["t2"]["owner_scope"] = "any"
         if r.chance(0.5):
             raw.setdefault("t4", {})["enabled"] = False
         ops = []
@@ -298,6 +304,17 @@ def _run_arm(program: Dict[str, Any], keep: Optional[Tuple[str, ...]], stats: Op
             if seams is not None:
                 seams.__enter__()
             try:
+                if "t2store" in json.dumps(program["ops"]) + json.dumps(program["cfg"]):
+                    # two embedding stores on the scratch disk: the first and the second half of the memory
+                    from clematis.engine.util.embed_store import write_shard
+                    import numpy as _np
+                    eps0 = [e for e in (program["world"].get("episodes") or []) if E.episode_vec(e.get("vec", "text"), e.get("text", "")) is not None]
+                    if len(eps0) >= 2:
+                        half = len(eps0) // 2
+                        for dname, part in (("t2store", eps0[:half]), ("t2store_b", eps0[half:])):
+                            write_shard(os.path.join(root, dname), [e["id"] for e in part],
+                                        _np.stack([_np.asarray(E.episode_vec(e.get("vec", "text"), e.get("text", "")), dtype=_np.float32) for e in part]),
+                                        dtype="fp32", precompute_norms=True)
                 arm = _Arm(program["world"], program["world_b"], program["cfg"], ee, keep)
                 for op in program["ops"]:
                     cur.clear()
